@@ -46,7 +46,7 @@ FILE_STYLE = [("\r\n", True), ("\n", True), ("\r", True), ("\r\n", False), ("\n"
 def bounds(tier, seed):
     return {"max_files": 3 if tier == "quick" else 5, "pattern_sets_per_file": {str(k): list(v) for k, v in PATSETS.items()}, "engines": sorted(ENGINES),
             "config_formats": ["bumpver.toml", "setup.cfg"], "faults": ["none", "nomatch(file,pattern)", "missing(file)", "undecodable(file)", "directory(file)",
-            "lower-set-version", "no-change-bump", "malformed-set-version", "equal-set-version", "set-version-of-existing-tag (commit mode)"], "modes": ["update --dry", "update", "update + commit (fake git)"],
+            "lower-set-version", "no-change-bump", "malformed-set-version", "equal-set-version", "set-version-of-existing-tag (commit mode)", "commit/tag message template that cannot be rendered (commit mode)"], "modes": ["update --dry", "update", "update + commit (fake git)"],
             "file_styles": "per file: CRLF / LF / CR / CRLF without final newline / LF without final newline, non-ASCII header",
             "orders": "all permutations of the file entries, config entry explicit at every position or implicit"}
 
@@ -194,12 +194,15 @@ def run_chunk(chunk):
         faults.append(("missing", name))
         faults.append(("undecodable", name))
         faults.append(("directory", name))
-    faults += [("lower-set-version",), ("no-change-bump",), ("malformed-set-version",), ("equal-set-version",), ("set-version-of-existing-tag",)]
+    faults += [("lower-set-version",), ("no-change-bump",), ("malformed-set-version",), ("equal-set-version",), ("set-version-of-existing-tag",),
+               ("bad-message-template", "bump {new_versio}"), ("bad-message-template", "fix {"), ("bad-tag-template", "release {0}")]
     for order in itertools.permutations(keys):
         for fault in faults:
             for mode in ("dry", "real", "commit"):
                 if fault == ("set-version-of-existing-tag",) and mode != "commit":
                     continue  # (without a repository there are no tags: the version is acceptable)
+                if fault and fault[0] in ("bad-message-template", "bad-tag-template") and mode != "commit":
+                    continue  # (a template that cannot be rendered matters when a commit/tag is made)
                 run_one(st, engine, fmt, names, npat, order, explicit, fault, mode)
     os.chdir("/")
     return st
@@ -217,6 +220,10 @@ def run_one(st, engine, fmt, names, npat, order, explicit, fault, mode):
         args += ["--set-version", "1.2.x"]
     elif fault == ("equal-set-version",):
         args += ["--set-version", E["old"]]
+    elif fault and fault[0] == "bad-message-template":
+        args += ["--patch", "--commit-message", fault[1]]
+    elif fault and fault[0] == "bad-tag-template":
+        args += ["--patch", "--tag-message", fault[1]]
     elif fault == ("set-version-of-existing-tag",):
         args += ["--ignore-vcs-tag", "--set-version", E["new"]]  # 1.2.4 is a tag on another branch
     elif fault == ("no-change-bump",):
